@@ -48,7 +48,12 @@ CLAIMED["C05"] = dict(
    ref="DESIGN.md §6 C05, §4.1",
    note="Trusts: the host-side filter/type model of the generated sources, the vector-clock reading of 'ready' for remote completions (strictly-later turn of the finishing worker known to the subject's worker), the simulated clock. A late failure of a process listed in an earlier, already completed select may kill the subject: counted, not judged (the statement is silent).",
    technique="deterministic simulation: seeded interleaving + virtual-clock search with an executable reference model of select evaluated over the recorded history")
-PENDING = {k: 'claimed in DESIGN.md; check under construction in this revision (not yet registered)' for k in ['C10','C11','C13']}
+CLAIMED["C11"] = dict(
+   text="A generated list of steps (int/binary bindings, shadowing, destructuring, named tuples and field access, functions and closures capturing earlier bindings incl. binaries, type aliases, uses of the flowing previous result, processes that outlive their line and are awaited on a later one, occasional nil-valued steps and a final runtime error) is evaluated (a) prefix by prefix as ONE program in a fresh environment - the reference values and variables - and (b) as a REPL session under a random partition into lines with rejected lines (parse and compile errors) inserted in between, an optional second session sharing the environment, and variable reads at random boundaries, each under a sampled schedule/configuration (1-4 workers, quantum down to 1, JSON transport, both drive modes) with the heap-accounting monitors on. Every accepted line must yield the value of the corresponding one-program prefix (until the one-program form short-circuits on nil), every rejected line must be rejected and leave values and variables (names, formatted types, values) as in the one-program run. Sampling, not proof.",
+   ref="DESIGN.md §6 C11",
+   note="Trusts: the step generator producing well-typed programs (a generated prefix the front end rejects is a harness error), the harness re-implementation of the CLI's REPL loop (request_process_types -> Repl::evaluate -> poll). Type aliases are hoisted to the front of the one-program form because the parser accepts alias declarations only before the first step.",
+   technique="deterministic simulation: history (line partition + rejected lines) and schedule search against one-shot reference executions, with per-turn heap invariants")
+PENDING = {k: 'claimed in DESIGN.md; check under construction in this revision (not yet registered)' for k in ['C10','C13']}
 
 def main():
     checks = []
